@@ -387,11 +387,13 @@ BUILDER = {
         "invariants": ["Inv_C15"],
         "rel": "c15",
         "exh": {"quick": [("C15_Docs3", 2, 2), ("C15_DocsDeep", 2, 2, "C15_RangeDeep")],
-                "thorough": [("C15_Docs3", 2, 3), ("C15_DocsDeep", 2, 2, "C15_RangeDeep")]},    # (("C15_Docs", 2, 2): > 1 h)
+                "thorough": [("C15_Docs3", 2, 2), ("C15_DocsDeep", 2, 2, "C15_RangeDeep")]},
+                # (3 stages of C15_Docs3: 106,064 behaviours x ~15 related histories = 62 min; ("C15_Docs", 2, 2): > 1 h - the depth of the
+                #  thorough tier is in its 3,000 random histories, which is where F24 was found)
         "mutations": [{"switch": "DeepWrapRefills", "docs": "C15_DocsM", "stages": (2, 2), "expect": ["Inv_C15"]},
                       {"mutation": "PruneAlways", "docs": "C15_Docs3", "stages": (2, 2), "expect": ["Inv_C15"]},
                       {"mutation": "PropagateIgnoresDefaultDelete", "docs": "C15_DocsDeep", "range": "C15_RangeDeep", "stages": (2, 2), "expect": ["Inv_C15"]}],
-        "gen": _gen_c15, "random": {"quick": 400, "thorough": 2000}, "max_stages": 4,
+        "gen": _gen_c15, "random": {"quick": 400, "thorough": 3000}, "max_stages": 4,
         "nontrivial": _c04_nontrivial,
         "rule": "A: every 2(3)-stage history of the C15 universes (priority, !del, !merge, lists), each replayed as written and again "
                 "(a) unchanged in the same process, (b) with the last document repeated, (c) with an empty mapping document inserted at "
